@@ -49,20 +49,23 @@ def plan(prop, tier):
     """list of campaign parts: dict(sub, chunks or None (time-boxed share), runs per chunk, options)"""
     if prop == "C11":
         if tier == "quick":
-            return [dict(sub="sched", chunks=500, share=1.0)]
-        return [dict(sub="sched", chunks=None, share=0.93), dict(sub="sched-shipped", chunks=None, share=0.07, shipped_batch=True)]
+            return [dict(sub="sched", chunks=500, share=1.0), dict(sub="sched-big", chunks=32, big=True)]
+        return [dict(sub="sched", chunks=None, share=0.86), dict(sub="sched-big", chunks=None, share=0.07, big=True),
+                dict(sub="sched-shipped", chunks=None, share=0.07, shipped_batch=True)]
     if tier == "quick":
         return [
             dict(sub="sweep", chunks=40, sweep=True, max_records=7),
             dict(sub="ordinary", chunks=250),
             dict(sub="locked", chunks=120),
             dict(sub="torn", chunks=120),
+            dict(sub="ordinary-big", chunks=16, big=True),
         ]
     return [
         dict(sub="sweep", chunks=None, share=0.25, sweep=True, max_records=9),
-        dict(sub="ordinary", chunks=None, share=0.35),
+        dict(sub="ordinary", chunks=None, share=0.30),
         dict(sub="locked", chunks=None, share=0.2),
         dict(sub="torn", chunks=None, share=0.15),
+        dict(sub="ordinary-big", chunks=None, share=0.05, big=True),
         dict(sub="ordinary-shipped", chunks=None, share=0.05, shipped_batch=True),
     ]
 
@@ -153,9 +156,9 @@ def main():
 
         def mkjob(part, chunk):
             return dict(
-                repo=repo, prop=prop, sub=part["sub"].replace("-shipped", ""), base_seed=seed, chunk=chunk, runs=campaign.RUNS_PER_CHUNK,
+                repo=repo, prop=prop, sub=part["sub"].replace("-shipped", "").replace("-big", ""), base_seed=seed, chunk=chunk, runs=campaign.RUNS_PER_CHUNK,
                 known_keys=known_keys, recheck=97, sweep=part.get("sweep", False), max_records=part.get("max_records", 24),
-                shipped_batch=part.get("shipped_batch", False), label=part["sub"],
+                shipped_batch=part.get("shipped_batch", False), big=part.get("big", False), label=part["sub"],
             )
 
         if args.tier == "quick":
